@@ -1,7 +1,7 @@
 (* C08 - property theorems only.  Each is closed by [exact] of a lemma from Proofs.v and
    followed by Print Assumptions; Examples (by vm_compute) show non-vacuity and record the
    two defects found in the code before the repairs. *)
-From Cell2V Require Import Common.Tac Common.ListX Common.AList C08.Model C08.Spec C08.Corr C08.Proofs.
+From Cell2V Require Import Common.Tac Common.ListX Common.AList C08.Model C08.Spec C08.Corr C08.Proofs C08.BootProofs C08.TraceProofs.
 
 (* ------------------------------------------------------------------ part A: the watch fold *)
 
@@ -73,6 +73,76 @@ Theorem C08_implied_last_event : forall self listing evs e k,
   end.
 Proof. exact implied_last_event. Qed.
 Print Assumptions C08_implied_last_event.
+
+(* ------------------------------------------------------------------ part A': a whole life under an explicit schedule *)
+
+(* The REAL start-up, re-watch, re-listing and shutdown paths (StartMember / StartClient, the watch loop
+   with its start revision, listAgain after a compaction error, Shutdown) against a key space with
+   revisions, for EVERY schedule [acts]: when the server evaluates the listing, when that response
+   arrives, what other nodes do in between, when the watch is registered, in which fragments its events
+   arrive, when the stream fails, when the history is compacted, when the node shuts down.
+   Model of the REPAIRED code (hooks/C08-fix-watch-from-listing-revision.patch).
+
+   After any schedule the member table - and it is what was published last - is the key space at the
+   position the provider has seen, plus the node itself (member) resp. for all other nodes (client). *)
+Theorem C08_boot_directory : forall self mode dir acts,
+  let s := fst (boot_run true self mode (boot0 dir) acts) in
+  b_pc s = PRun -> Forall conform_mut (firstn (b_seen s) (b_log s)) ->
+  b_dir s = publish (b_mem s) /\
+  (mode = true -> b_mem s = membership true self (b_log s) (b_seen s)) /\
+  (mode = false -> adel (nid self) (b_mem s) = membership false self (b_log s) (b_seen s)).
+Proof. exact boot_directory. Qed.
+Print Assumptions C08_boot_directory.
+
+(* No event is lost and none is applied twice, in every schedule: the watch the provider asks for, and
+   the one the server registers, continue exactly at the position of the member table; a listing in
+   flight is a snapshot of the key space that is not older than the member table. *)
+Theorem C08_boot_lossless : forall self mode dir acts,
+  let s := fst (boot_run true self mode (boot0 dir) acts) in
+  (b_seen s <= length (b_log s))%nat /\
+  (forall i, b_watch s = WOpen i -> i = b_seen s) /\
+  (forall req, b_watch s = WReq req -> req = Some (b_seen s)) /\
+  (forall nodes r, b_get s = GFlight nodes r -> b_pc s = PRun ->
+                   nodes = map snd (snap (b_log s) r) /\ (b_seen s <= r <= length (b_log s))%nat).
+Proof. exact boot_lossless. Qed.
+Print Assumptions C08_boot_lossless.
+
+(* ... hence: whenever the open watch has nothing pending, the directory IS the current membership *)
+Theorem C08_boot_current : forall self mode dir acts,
+  let s := fst (boot_run true self mode (boot0 dir) acts) in
+  b_watch s = WOpen (length (b_log s)) -> Forall conform_mut (b_log s) ->
+  b_dir s = publish (b_mem s) /\
+  (mode = true -> b_mem s = membership true self (b_log s) (length (b_log s))) /\
+  (mode = false -> adel (nid self) (b_mem s) = membership false self (b_log s) (length (b_log s))).
+Proof. exact boot_current. Qed.
+Print Assumptions C08_boot_current.
+
+(* nothing older ever overwrites something newer: along every schedule the position of the member
+   table only grows (and a started provider stays started) *)
+Theorem C08_boot_monotone : forall self mode dir a1 a2,
+  let s1 := fst (boot_run true self mode (boot0 dir) a1) in
+  let s2 := fst (boot_run true self mode (boot0 dir) (a1 ++ a2)) in
+  b_pc s1 = PRun -> b_pc s2 = PRun /\ (b_seen s1 <= b_seen s2)%nat.
+Proof. exact boot_monotone. Qed.
+Print Assumptions C08_boot_monotone.
+
+(* the node itself is in every list a member publishes, from the first one on *)
+Theorem C08_boot_self_present : forall self dir acts,
+  let s := fst (boot_run true self true (boot0 dir) acts) in
+  b_pc s = PRun -> Forall conform_mut (firstn (b_seen s) (b_log s)) ->
+  In (member_of self) (b_dir s).
+Proof. exact boot_self_present. Qed.
+Print Assumptions C08_boot_self_present.
+
+(* the executable form of the property (Spec.v [boot_monitor]: every publication is the membership at
+   the highest position shown so far, a registered watch starts no later than right after it - stated
+   without reference to the order in which an implementation issues its requests) accepts the machine
+   on every schedule *)
+Theorem C08_boot_monitor_sound : forall self mode dir acts,
+  nalive self = true ->
+  boot_monitor mode self bmon0 acts (snd (boot_run true self mode (boot0 dir) acts)) = true.
+Proof. exact boot_monitor_accepts. Qed.
+Print Assumptions C08_boot_monitor_sound.
 
 (* ------------------------------------------------------------------ part B: the indexes *)
 
@@ -347,6 +417,51 @@ Example C08_example_self_state :
   publish (snd (fold_hist xself [xn2; with_state xself 5] h)) = [Mb 0 3 10 [Svc 1 1]; member_of xn2] /\
   last_state_from (nstate xself) h = 3.
 Proof. vm_compute. split; [|split; reflexivity]. repeat constructor. Qed.
+
+(* non-vacuity of part A': node 1 registers (state 1), the listing is evaluated, node 1 re-registers with
+   state 2 BEFORE the watch exists, the listing arrives, the watch is registered and delivers; the stream
+   fails, node 2 registers and node 1 expires, the history is compacted, the new watch is refused, the
+   provider lists again and watches on; Shutdown with an event in flight *)
+Definition xacts : list act :=
+  [AWatch; AMut (MPut xn1); AGetEval; AMut (MPut xn1'); ADeliver 9; AGetResp; AWatch; ADeliver 9;
+   AWatchFail 1; AMut (MPut xn2); AMut (MDel 1); ACompact; AMut (MPut xn1); AWatch; AGetEval; AGetResp; AWatch;
+   AMut (MDel 2); AShutdown; ADeliver 1].
+
+Example C08_example_boot :
+  let '(s, xs) := boot_run true xself true (boot0 []) xacts in
+  Forall conform_mut (b_log s) /\ b_pc s = PRun /\ b_seen s = 6%nat /\ b_watch s = WOpen 6 /\
+  map (fun x => match x with XStart _ _ ms _ | XPub ms _ => Some ms | _ => None end) xs =
+  [None; None; None; None; None; Some [member_of xself; member_of xn1]; None;
+   Some [member_of xself; member_of xn1']; None; None; None; None; None; None; None;
+   Some [member_of xself; member_of xn1; member_of xn2]; None; None; None; Some [member_of xself; member_of xn1]] /\
+  nth 6 xs XNone = XWReg 3 /\ nth 13 xs XNone = XWComp /\ nth 16 xs XNone = XWReg 7 /\
+  b_dir s = publish (membership true xself (b_log s) 6) /\
+  boot_monitor true xself bmon0 xacts xs = true.
+Proof. vm_compute. repeat split; try reflexivity. repeat constructor. Qed.
+
+(* a client (StartClient) on the same schedule: all other nodes, never itself *)
+Example C08_example_boot_client :
+  let s := fst (boot_run true xself false (boot0 []) xacts) in
+  b_dir s = [member_of xn1] /\ adel 0 (b_mem s) = membership false xself (b_log s) 6.
+Proof. vm_compute. split; reflexivity. Qed.
+
+(* F23 (code before hooks/C08-fix-watch-from-listing-revision.patch, [fixed = false]: Watch without a start
+   revision): what node 1 does between the evaluation of the listing and the registration of the watch
+   is never delivered - the watch is open, has nothing pending, and the directory still shows state 1.
+   The property monitor rejects that trace (the watch starts after a position the provider never saw);
+   the repaired provider asks for revision 3 and ends with state 2. *)
+Example C08_F23_old_code_refuted :
+  let acts := [AMut (MPut xn1); AGetEval; AMut (MPut xn1'); AGetResp; AWatch; ADeliver 9] in
+  let '(old, xs_old) := boot_run false xself true (boot0 []) acts in
+  let '(new, xs_new) := boot_run true xself true (boot0 []) acts in
+  b_watch old = WOpen 2 /\ length (b_log old) = 2%nat /\
+  b_dir old = [member_of xself; member_of xn1] /\
+  publish (membership true xself (b_log old) 2) = [member_of xself; member_of xn1'] /\
+  boot_monitor true xself bmon0 acts xs_old = false /\
+  nth 4 xs_old XNone = XWReg 4 /\ nth 4 xs_new XNone = XWReg 3 /\
+  b_dir new = [member_of xself; member_of xn1'] /\
+  boot_monitor true xself bmon0 acts xs_new = true.
+Proof. vm_compute. repeat split; reflexivity. Qed.
 
 (* non-vacuity of the driver: a start with a stale record of the node itself in the listing, a
    failing start (undecodable listing entry), shutdown *)
